@@ -115,3 +115,28 @@ CHECKS["C15"] = dict(
     level_text="Every (P,m) pair of the universes is checked for completeness and every un-move of every successor for consistency; exhaustive within the universes.",
     level_note="Trusted: the independent oracle; positions with many men only through the seed trees.",
 )
+
+# ------------------------------------------------------------------------------------------ C20
+def c20_parts(tier, seed):
+    fl = "seq"
+    return [
+        P("n1", "c20_csp", fl, ["--part", "n1"], require=["satisfiable", "unsatisfiable"]),
+        P("n2", "c20_csp", fl, ["--part", "n2"], require=["satisfiable", "unsatisfiable"], deadline_frac=0.9),
+        P("n3", "c20_csp", fl, ["--part", "n3"], require=["satisfiable", "unsatisfiable"], deadline_frac=0.9),
+    ]
+
+CHECKS["C20"] = dict(
+    parts=c20_parts,
+    rule="states = constraint systems enumerated (each distinct by construction of the nested enumeration), transitions = solve() calls (all four preference orders "
+         "on 1/8 of the systems chosen by a fixed hash of the index, one order otherwise); a system is non-trivial when it has >= 1 constraint and every initial range is non-empty",
+    alphabet="1..3 variables; ranges from a boundary list inside [-16,47] incl. empty ranges and the full window; parity none/even/odd; addMinVal/addMaxVal tightenings inside the "
+             "window; constraints v_i {<=,>=,==} v_j + c incl. i == j and 3-cycles",
+    oracle="brute force over all assignments of the initial ranges: solve()==true iff a solution exists; any returned assignment satisfies every range, parity and constraint",
+    bound=dict(quick="n=1: all ranges x parity x 7 tightenings x <=2 self-constraints (c in 9 values); n=2: 12 ranges x parity x 3 tightenings per variable, <=2 constraints over c in 5 values; "
+                     "n=3: 6 ranges x 2 parities, <=1 constraint + all 3-cycles with c in [-2,2]",
+               thorough="n=2 with 13 ranges (incl. the full window) and c in 9 values; n=3 with <=2 constraints"),
+    assumptions=["arguments stay inside the solver's supported limits (values in [-16,47]); BitSet::removeSmaller/removeLarger outside the window are out of domain (DESIGN 2.3-10)"],
+    technique="bounded-exhaustive enumeration of small constraint systems on the real solver against a brute-force reference",
+    level_text="Every system of the stated alphabet with up to 3 variables is solved by the real code and compared with exhaustive search over its assignments.",
+    level_note="Trusted: the brute-force reference; systems with more than 3 variables or more constraints are not covered.",
+)
